@@ -67,6 +67,10 @@ namespace GeographicLib {
     real sphi1, cphi1, sphi2, cphi2;
     Math::sincosd(stdlat1, sphi1, cphi1);
     Math::sincosd(stdlat2, sphi2, cphi2);
+    if (cphi1 == 0 || cphi2 == 0)
+      if (!(cphi1 == cphi2 && sphi1 == sphi2))
+        throw GeographicErr
+          ("Standard latitudes must be equal is either is a pole");
     Init(sphi1, cphi1, sphi2, cphi2, k1);
   }
 
